@@ -9,6 +9,7 @@ from vlib import gen
 from vlib.runner import Violation, sut
 
 ID = "C19"
+DETERMINISTIC = True  # pure in-memory functions judged by a pure oracle: see runner (a failure seen once counts)
 RULE = (
     "case = list of 0..8 events with data over {title, app, url, n} (strings incl. unicode and mixed case, ints, null, lists, missing) x 0..6 rules "
     "(regex from a pool of literals/alternations/anchors/classes/empty/absent, ignore_case, select_keys absent | existing | missing | non-string valued) x "
